@@ -393,7 +393,19 @@ def vec_elems(t):
 
 
 def same(a, b):
-    return norm(a) == norm(b)
+    """identity by origin; a value named through a local helper on one side and spelled out on the
+    other is the same value (compared in their inlining forms)"""
+    if a is None or b is None:
+        return False
+    if norm(a) == norm(b):
+        return True
+    import engine.mir as _m
+    if _m.CURRENT is None:
+        return False
+    has_local = lambda t: any(s_[0] == "call" and _m.CURRENT.body(s_[1]) is not None for s_ in subterms(t)) or any(s_[0] == "mut" and _m.CURRENT.body(s_[2]) is not None for s_ in subterms(t))
+    if not (has_local(a) or has_local(b)):
+        return False
+    return same_any(_m.CURRENT, a, b)
 
 
 def same_any(prog, a, b, depth=2):
